@@ -48,13 +48,21 @@ func runX86(bs []byte, from uint64, mode int, exact bool) (string, int) {
 				rdx &= 0xffffffff
 			}
 		case refx86.JMP:
-			if exact && off+ins.Len != len(bs) {
+			if m, isMem := ins.Args[0].(refx86.Mem); exact && off+ins.Len != len(bs) && !(isMem && m.Base == refx86.RIP) {
 				return "undecodable", 0
 			}
 			switch a := ins.Args[0].(type) {
 			case refx86.Rel:
 				return fmt.Sprintf("rip=%#x rdx=%#x", next+uint64(int64(a)), rdx), off + ins.Len
 			case refx86.Mem:
+				if mode == 64 && a.Base == refx86.RIP && a.Index == 0 && a.Disp == 0 && a.Segment == 0 {
+					// JMP [RIP+0]: the pointer is the quadword right behind the instruction, part of the sequence itself
+					q := off + ins.Len
+					if len(bs) < q+8 || (exact && len(bs) != q+8) {
+						return "undecodable", 0
+					}
+					return fmt.Sprintf("rip=%#x rdx=%#x", binary.LittleEndian.Uint64(bs[q:]), rdx), q + 8
+				}
 				okb := (mode == 64 && a.Base == refx86.RDX) || (mode == 32 && a.Base == refx86.EDX)
 				if !okb || a.Index != 0 || a.Disp != 0 || a.Segment != 0 {
 					return "undecodable", 0
